@@ -28,7 +28,7 @@ import numpy as np
 from harness import core, translate
 from harness.core import f2b
 
-MODULES = ["AdaptiveProofs.Props.C20"]
+MODULES = ["AdaptiveProofs.Props.C20", "AdaptiveProofs.Lemmas.Choose"]
 REL = 1e-9          # the property's tolerance ("to rounding")
 BAND = 1e-6         # guard band around the thresholds of the tolerance-guarded predicates
 
@@ -249,6 +249,15 @@ def const_case():
 def _ord(b):
     b = int(b)
     return b if b < (1 << 63) else (1 << 63) - b
+
+
+def choose_case(seed):
+    """learnerND.choose_point_in_simplex for triangles against the hand model AdaptiveModel/Choose.lean (which composes the
+    GENERATED circumsphere2 / point_in_simplex2), bit for bit"""
+    warnings.simplefilter("ignore")
+    from harness import choose_corr
+    lines, impl, stats = choose_corr.harness_case(seed)
+    return {"lines": lines, "impl": impl, "meta": {"kind": "choose2", "seed": seed, "stats": stats}}
 
 
 def cmp_bits(a, b):
@@ -983,8 +992,14 @@ def run(ctx):
     cases.append(const_case())
     corr.count("constants", len(cases[-1]["lines"]))
     core.lockstep(corr, cases, cmp=cmp_bits, shards=ctx.n(4, 12))
+    corr2 = core.Corr("learnerND.choose_point_in_simplex (triangles, None / diagonal transform) ~ Choose.lean at Float (bit level)")
+    ccases = core.pmap(choose_case, [ctx.rng.randrange(1 << 30) for _ in range(ctx.n(40, 600))])
+    for c in ccases:
+        for k, v in c["meta"]["stats"].items():
+            corr2.count(k, v)
+    core.lockstep(corr2, ccases, cmp=cmp_bits, shards=ctx.n(2, 8))
     # 4. search
-    deep = not proof.ok or not corr.ok
+    deep = not proof.ok or not corr.ok or not corr2.ok
     per_unit = ctx.n(200, 6000) * (3 if deep else 1)
     items = [(name, ctx.rng.randrange(1 << 30)) for name, (_, w) in ORACLES.items() for _ in range(per_unit * w)]
     results = core.pmap(oracle_item, items)
@@ -996,7 +1011,7 @@ def run(ctx):
                          "detail": json.dumps(oe)[:1200], "replay": oe})
     calls = {fn: st["calls"] for fn, st in sorted(per.items())}
     return core.conclude(
-        ctx, proof, [corr], failures,
+        ctx, proof, [corr, corr2], failures,
         rule="seeded inputs (small dyadic rationals, the same scaled by 2^k, generic doubles), non-degenerate simplices "
              "(|det| >= 1e-3 x product of edge norms), query points built from barycentric coordinates inside / outside / next "
              "to faces, dims 1-5; non-trivial = distinct protocol-line sequence (correspondence) / oracle item that reached a check",
@@ -1014,6 +1029,9 @@ def run(ctx):
             "broadcasting '-', np.hypot(a,b)=sqrt(a*a+b*b), pdist euclidean, math.factorial) and the constants dump",
             "modelled, not verified (oracle only): numpy.linalg.det / solve / slogdet, scipy pdist/squareform, np.hypot, "
             "np.std / np.linalg.norm / np.power, scipy LinearNDInterpolator triangulation, IEEE rounding (theorems are over fields)",
+            "hand-written model AdaptiveModel/Choose.lean of learnerND.choose_point_in_simplex for triangles (centroid = ((a+b)+c)/3, "
+            "first-maximum argmax over the 3x3 distance matrix, np.dot / np.linalg.solve with a DIAGONAL transform), tied bit for bit "
+            "on 10 categories of triangles x 4 transforms; dimension 3 and non-diagonal transforms are not modelled",
             "sqrt satisfies Prims.SqrtLaw (non-negative; squares back on non-negative arguments) — holds for Real.sqrt",
         ],
         assumptions=["non-degenerate inputs (non-zero determinant of the edge vectors), finite coordinates",
